@@ -104,6 +104,9 @@ structure Setter where
   /-- attributes that already hold the newly assigned value when a later statement of the setter can
   still refuse the call (assert / raise / conversion): what a REFUSED call leaves behind (round 3) -/
   early : List Nat := []
+  /-- every attribute the setter's own code LOADS (tests, validation, conditional stores, the container it
+  stores into): what its effect may depend on (round 5) -/
+  reads : List Nat := []
   deriving Repr, DecidableEq
 
 structure ClassTable where
@@ -191,6 +194,15 @@ def putWhole (t : ClassTable) : Bool :=
 guard attributes. -/
 def getClearsWhole (t : ClassTable) : Bool :=
   decide (∀ g ∈ t.getters, ∀ s ∈ t.allSites, (∃ a ∈ s.slots, a ∈ g.clears) → ∃ b ∈ s.guard, b ∈ g.clears)
+
+/-- T10 (round 5) SETTER FRAME: what a setter looks at is either an attribute it assigns itself or an attribute
+that no setter ever assigns (fixed by the constructor).  Then whether / what a setter stores cannot depend on
+the calls of the OTHER setters made before it: the settings are independent fields and setter calls on
+different settings commute (`C18_settings_commute`).  A cross-field check in a setter (silently skipping, or
+clamping, a minimum against the current maximum) breaks it.  Not part of `wellFormed`: in-place operations
+(e.g. `values` after `convert_to_culled_timestep`) legitimately depend on the state. -/
+def setterFrame (t : ClassTable) : Bool :=
+  decide (∀ s ∈ t.setters, ∀ a ∈ s.reads, a ∈ s.writes ∨ ∀ s' ∈ t.setters, a ∉ s'.writes)
 
 def wellFormed (t : ClassTable) : Bool :=
   t.oneExpr && t.selfFill && t.guardOwn && t.resetsOk && t.initOk && t.allGuarded && t.groupClosed &&
